@@ -55,7 +55,7 @@ Section Loc.
       cbn [parse_loop_with]. rewrite Ep. cbn [t_typ kwtok]. change (TIdent =? EOF) with false. cbv iota.
       unfold bind. rewrite Ek, Ed. cbn [elab_from].
       destruct (IH f (defs ++ [elab_def_ctx ctx line off d]) (ctx_step ctx d) (line + def_lines d) (off + blen (print_def d)) st2
-                  (ctx_agrees_step il id F ctx defs line off d Hag) Hw' Hc ltac:(lia) HR2 ltac:(lia))
+                  (ctx_agrees_step ctx defs line off d Hag) Hw' Hc ltac:(lia) HR2 ltac:(lia))
         as (st' & E & HR').
       exists st'. split.
       + rewrite E. cbn [Nat.sub]. rewrite <- app_assoc. reflexivity.
